@@ -129,9 +129,9 @@ func genCluster(seed uint64, tier, variant string) any {
 	if askpair {
 		mode = "change"
 	}
-	cl.Stable = mode == "stable" || mode == "replicas" || mode == "helpers" || mode == "helpers2" || mode == "cancel" || mode == "dedicated"
+	cl.Stable = mode == "stable" || mode == "replicas" || mode == "helpers" || mode == "helpers2" || mode == "cancel" || mode == "dedicated" || mode == "lifetime"
 	cl.MapOrder = mode == "helpers2"
-	cl.FaultFree = mode != "faults"
+	cl.FaultFree = mode != "faults" && mode != "lifetime"
 	cl.Cancel = mode == "cancel"
 	// topology: 2-4 shards, 0-2 replicas each
 	nsh := 2 + r.IntN(3)
@@ -603,6 +603,17 @@ func genCluster(seed uint64, tier, variant string) any {
 				p.Ghosts = append(p.Ghosts, GhostSpec{Kind: "loading", MinStep: g.MinStep, Argv: []string{strconv.Itoa(r.IntN(total)), strconv.Itoa(1 + r.IntN(4))}})
 			}
 		}
+	}
+	if mode == "lifetime" {
+		// variant lifetime: an unchanging topology, connections that reach their ConnLifetime, and a server that answers
+		// slowly around that moment (the client closes an expired connection after a grace period of one second; calls
+		// outstanding longer than that are cut off and re-sent): the recovery paths after errConnExpired in cluster.go
+		p.Opt.ConnLifetimeMs = pick(r, 60, 150, 400, 1000)
+		p.Opt.AlwaysPipelining = r.IntN(4) != 0
+		for i, nf := 0, 1+r.IntN(4); i < nf; i++ {
+			p.Faults = append(p.Faults, FaultSpec{Kind: "slow", AtStep: r.IntN(200), NeedInflight: true, Pick: r.IntN(8), DurMs: pick(r, 1100, 1500, 2500)})
+		}
+		return p
 	}
 	if !cl.FaultFree {
 		for i, nf := 0, 1+r.IntN(3); i < nf; i++ {
@@ -1199,6 +1210,10 @@ func (ce *clusterEnv) judge() {
 		}
 	}
 	faultFree := cl.FaultFree && !anyFault
+	lifetime := ce.plan.Opt.ConnLifetimeMs > 0
+	if lifetime {
+		judgeLifetimeRecovery(ce.env, "cluster")
+	}
 	// per connection command lists
 	byConn := map[int][]*fakeredis.Exec{}
 	for _, ex := range w.Log {
@@ -1619,7 +1634,9 @@ func (ce *clusterEnv) judge() {
 				}
 			}
 			// ---- C03 (cluster clause): non-retryable writes execute at most once ----
-			if strings.ToUpper(argv[0]) == "VWTAG" && c.Flag == "" {
+			// (plans with ConnLifetime: judgeLifetimeRecovery below tells the known finding - a write still unanswered
+			// when its connection expired is sent again - from a re-execution of a write the client had the answer to)
+			if strings.ToUpper(argv[0]) == "VWTAG" && c.Flag == "" && !lifetime {
 				if executed[uid] > 1 {
 					out.violate("C03", "executed-twice", "task %d call %d cmd %d %q was executed %d times by the cluster (nodes %s)", task, rec.Index, i, truncArgv(argv), executed[uid], attemptNodes(att))
 				} else {
@@ -1627,7 +1644,9 @@ func (ce *clusterEnv) judge() {
 				}
 			}
 			// ---- C28 (cluster clause) ----
-			if retrySends > 0 && !inTx {
+			if retrySends > 0 && !inTx && lifetime {
+				out.notJudged("re-send-after-lifetime-expiry")
+			} else if retrySends > 0 && !inTx {
 				out.probe("command-re-sent-after-error")
 				retryable := c.Flag == "ro" || c.Flag == "retry"
 				switch {
